@@ -60,11 +60,11 @@ func (f *Abs) Call(s *slip.Scope, args slip.List, depth int) (result slip.Object
 	case *slip.Ratio:
 		var z big.Rat
 		_ = z.Abs((*big.Rat)(ta))
-		result = (*slip.Ratio)(&z)
+		result = canonicalRational(&z)
 	case *slip.Bignum:
 		var z big.Int
 		_ = z.Abs((*big.Int)(ta))
-		result = (*slip.Bignum)(&z)
+		result = canonicalInteger(&z)
 	case *slip.LongFloat:
 		var z big.Float
 		_ = z.Abs((*big.Float)(ta))
